@@ -299,6 +299,137 @@ def run_cases(cases, props, opts=None, procs=None):
     return results
 
 
+# --------------------------------------------------------------------------- code -> spec (beyond the bounds)
+
+
+def random_case(rnd, faults):
+    """A configuration outside ConfigsOf: more/longer sources, larger parameters."""
+    tool = rnd.choice(ITER_TOOLS + ["all", "any"])
+    L_ = lambda hi=8: rnd.randint(0, hi)  # noqa: E731
+    seq = lambda keys, hi=8: [rnd.choice(keys) for _ in range(L_(hi))]  # noqa: E731
+    b = lambda: rnd.random() < 0.5  # noqa: E731
+    par, data = {"z": 0}, [seq([1])]
+    if tool == "zip":
+        par, data = {"strict": b()}, [seq([1]) for _ in range(rnd.randint(0, 4))]
+    elif tool == "map":
+        data = [seq([1]) for _ in range(rnd.randint(1, 3))]
+    elif tool in ("filter", "filterfalse"):
+        par, data = {"pred": b()}, [seq([0, 1], 10)]
+    elif tool == "enumerate":
+        par = {"start": rnd.choice([0, 1, 7, 100])}
+    elif tool == "iter":
+        data = [seq([1, 1, 1, 2, 3], 10)]
+    elif tool == "accumulate":
+        par = {"init": b(), "fn": rnd.choice(["func", "add"])}
+    elif tool == "batched":
+        par = {"n": rnd.randint(1, 6), "strict": False}
+        data = [seq([1], 12)]
+    elif tool == "chain":
+        par, data = {"outer": b()}, [seq([1], 5) for _ in range(rnd.randint(0, 4))]
+    elif tool == "compress":
+        data = [seq([1], 9), seq([0, 1], 9)]
+    elif tool in ("dropwhile", "takewhile", "all", "any"):
+        data = [seq([0, 1, 1] if tool in ("takewhile", "all") else [0, 0, 1], 10)]
+    elif tool == "islice":
+        par = {"start": rnd.choice([-1, 0, 1, 2, 3, 5, 6]), "stop": rnd.choice([-1, 0, 1, 3, 4, 6, 8, 9]), "step": rnd.choice([-1, 1, 2, 3, 4])}
+        data = [seq([1], 10)]
+    elif tool == "zip_longest":
+        data = [seq([1], 6) for _ in range(rnd.randint(0, 4))]
+    elif tool == "merge":
+        rev = b()
+        par = {"key": b(), "rev": rev}
+        data = [sorted(seq([1, 2, 3, 4], 6), reverse=rev) for _ in range(rnd.randint(0, 4))]
+    elif tool == "cycle":
+        data = [seq([1], 4)]
+    total = sum(len(d) for d in data)
+    case = {"cfg": {"tool": tool, "par": par, "data": data}, "fault": 0}
+    if tool == "cycle":
+        case["nnext"] = rnd.randint(0, 12)
+        case["closes"] = True
+    elif rnd.random() < 0.5:
+        case["nnext"], case["closes"] = 10 ** 6, False
+    else:
+        case["nnext"], case["closes"] = rnd.randint(0, total + 2), True
+    if faults:
+        if rnd.random() < 0.6 and data:
+            i = rnd.randint(1, len(data))
+            case["plan"] = ["pull", 0 if (tool == "chain" and par.get("outer") and rnd.random() < 0.3) else i, rnd.randint(1, len(data[i - 1]) + 1)]
+        else:
+            f = {"map": "func", "starmap": "func", "accumulate": "func", "filter": "pred", "filterfalse": "pred", "dropwhile": "pred",
+                 "takewhile": "pred", "merge": "key", "iter": "subject"}.get(tool)
+            if f:
+                case["plan"] = ["call", f, rnd.randint(1, max(1, total))]
+    case["log"] = [{"ev": "close"}] if case.get("closes") else [{"ev": "end"}]
+    return case
+
+
+def record_random(args):
+    seed, faults = args
+    rnd = random.Random(seed)
+    case = random_case(rnd, faults)
+    L = tm.load_lib()
+    o = tm.execute(case, L, susp=rnd.choice([0, 1]))
+    log = tm.lazy_projection(o.log) + ([{"ev": "close"}] if o.ending == "close" else [])
+    return {"cfg": case["cfg"], "log": log, "nnext": case["nnext"], "closes": case.get("closes"), "plan": case.get("plan"),
+            "fault_fired": o.fault_fired, "exc_same": o.exc_same, "uses_after_fault": o.uses_after_fault, "ending": o.ending,
+            "released": o.released, "states": o.states, "close_error": o.close_error, "started": o.started}
+
+
+ITEMS_EVENTS = ("next", "yield", "end", "raise", "return", "close")
+
+
+def beyond_bounds(prop, tier, seed, v):
+    """Record random executions beyond the exhaustive bounds and let TLC judge them."""
+    from .tracecheck import validate  # noqa: PLC0415
+
+    n = {"quick": 1500, "thorough": 30000}[tier]
+    faults = prop == "C06"
+    with mp.Pool(min(16, os.cpu_count() or 4)) as pool:
+        recs = pool.map(record_random, [(seed * 2654435761 % (2 ** 31) + i, faults) for i in range(n)], chunksize=64)
+    if prop == "C06":
+        recs = [r for r in recs if r["fault_fired"]]
+        for r in recs:
+            tool = r["cfg"]["tool"]
+            d = {"engine": "toolmachine", "mode": "random", "cfg": r["cfg"], "nnext": r["nnext"], "fault": r["plan"], "observed_log": r["log"][-6:]}
+            if r["exc_same"] is not True:
+                v.violation(f"C06/{tool}/exception-{'swallowed' if r['ending'] in ('end', 'close', 'return', None) else 'replaced'}", d)
+            if r["uses_after_fault"]:
+                v.violation(f"C06/{tool}/use-after-failure", d)
+    if prop == "C04":
+        for r in recs:
+            if not r["started"] or r["ending"] is None:
+                continue
+            bad = sorted(i for i, ok in r["released"].items() if not ok)
+            if r["cfg"]["tool"] == "chain" and r["cfg"]["par"].get("outer"):
+                fetched = sum(1 for e in r["log"] if e["ev"] == "pull" and e["src"] == 0 and e["res"] == "item")
+                bad = [i for i in bad if i == 0 or int(i) <= fetched]
+            if bad:
+                how = {"end": "exhaustion", "raise": "raise", "fault": "failure", "close": "close"}.get(r["ending"], str(r["ending"]))
+                who = "unstarted-source" if all(r["states"].get(i) == "new" for i in bad) else "source"
+                v.violation(f"C04/{r['cfg']['tool']}/unreleased-{who}-after-{how}",
+                            {"engine": "toolmachine", "mode": "random", "cfg": r["cfg"], "nnext": r["nnext"], "fault": r["plan"], "observed": r["states"]})
+        return {"random_executions": len(recs)}
+    if prop == "C01":
+        recs = [r for r in recs if not r["closes"]]
+        traces = [{"cfg": r["cfg"], "log": [e for e in r["log"] if e["ev"] in ITEMS_EVENTS]} for r in recs]
+        proj = "items"
+    else:
+        traces = [{"cfg": r["cfg"], "log": r["log"]} for r in recs]
+        proj = "all"
+    tl = ", ".join(f'"{t}"' for t in ITER_TOOLS + ["all", "any"])
+    const = f'CONSTANTS\n  MaxLen = 12\n  MaxSrc = 4\n  Tools = {{{tl}}}\n  Faults = {"TRUE" if faults else "FALSE"}\n  Prefixes = TRUE\n  OutFile = ""\n  Proj = "{proj}"\n'
+    # validate() writes {"cfg","ev"}: the ToolMachine trace spec reads .log
+    rejected, st = validate("ToolMachineTrace", traces, spec="Spec2", extra_cfg=const)
+    for idx, matched in sorted(rejected.items()):
+        tr, r = traces[idx], recs[idx]
+        bad = tr["log"][matched] if matched < len(tr["log"]) else {"ev": "missing-events"}
+        kind = tm._kind(bad) if bad.get("ev") != "missing-events" else "missing-events"
+        v.violation(f"{prop}/{tr['cfg']['tool']}/trace-rejected-at-{kind}",
+                    {"engine": "toolmachine", "mode": "trace", "spec": "ToolMachineTrace", "projection": proj, "cfg": tr["cfg"], "nnext": r["nnext"],
+                     "fault": r["plan"], "step": matched, "matched_prefix": tr["log"][max(0, matched - 6): matched], "rejected_event": bad})
+    return {"random_executions": len(recs), "trace_validation": st}
+
+
 SCOPE = {
     "C19": ADAPTERS,
     "C01": ITER_TOOLS,
@@ -359,6 +490,8 @@ def check(prop, tier, seed):
         sv = SubVerdict(v, tee_map, "tee")
         eng_tee.check("C09", "mini", seed, into=sv)
         sub["tee"] = {k: (sv.coverage_out or {}).get(k) for k in ("states", "transitions", "edge_cover_paths", "traces_validated_by_TLC_against_TeeObs")}
+    if prop in ("C01", "C04", "C05", "C06"):
+        sub["beyond_bounds"] = beyond_bounds(prop, tier, seed, v)
     if prop == "C19":
         L = tm.load_lib()
 
@@ -378,7 +511,7 @@ def check(prop, tier, seed):
     ]
     return v.finish({
         "states": stats["states"], "transitions": stats["transitions"],
-        "traces_validated_against_impl": res["n"].get("impl_replays", 0),
+        "traces_validated_against_impl": res["n"].get("impl_replays", 0) + sub.get("beyond_bounds", {}).get("random_executions", 0),
         "twin_replays": res["n"].get("twin_replays", 0),
         "evaluations": len(cases), "distinct_nontrivial": distinct,
         "rule": "every leaf of the ToolMachine state tree (tool x parameters x data x consumer prefix x fault position) "
